@@ -32,7 +32,7 @@ ASSUME = ["top-level unit names are unique in the workspace", "the baseline sche
 
 def plan(tier):
     if tier == "quick":
-        return {"ncases": 160, "nshards": 16, "budget_s": 80, "floor": 100000, "stall_s": 70}
+        return {"ncases": 160, "nshards": 16, "budget_s": 80, "floor": 50000, "stall_s": 70}
     return {"ncases": 4000, "nshards": 16, "budget_s": 2400, "floor": 1500000, "stall_s": 300}
 
 
